@@ -393,11 +393,13 @@ pub fn all_mutants(p: &Program) -> Vec<Mutant> {
         q.types.push(t2);
         q.order.clear();
         out.push(Mutant { class: "15-duplicate-type", what: format!("type {} declared twice", t.name), prog: q });
+    }
+    if let Some(ti) = p.types.iter().position(|t| !t.xtors.is_empty()) {
         let mut q = p.clone();
-        let x = q.types[0].xtors[0].clone();
-        q.types[0].xtors.push(x);
+        let x = q.types[ti].xtors[0].clone();
+        q.types[ti].xtors.push(x);
         q.order.clear();
-        out.push(Mutant { class: "15-duplicate-xtor", what: format!("xtor {} declared twice", t.xtors[0].name), prog: q });
+        out.push(Mutant { class: "15-duplicate-xtor", what: format!("xtor {} declared twice", p.types[ti].xtors[0].name), prog: q });
     }
     if let Some(di) = p.defs.iter().position(|d| !d.params.is_empty()) {
         let mut q = p.clone();
